@@ -58,6 +58,8 @@ def compare_all(res, sp=None):
 
     def cmp(key, what, got, want):
         res.case((key, what))
+        if res.evaluations % 997 == 1:
+            res.sample({"compared": f"{key} / {what}", "live_class_value": repr(got)[:120], "spec_value": repr(want)[:120]})
         if got != want:
             res.violation(f"C13:{key}:{what}", f"{key} {what}: class has {got!r}, spec says {want!r}",
                           {"key": key, "field": what, "got": repr(got), "want": repr(want)})
@@ -304,8 +306,6 @@ def run_shard(spec_, res):
         v["key"] = v["key"].replace("C13:", "C13:after-hostile-loads:", 1)
         v["what"] = "after loading files with unknown module types / out-of-enumeration values: " + v["what"]
     res.count("registry_comparisons", 2)
-    res.sample({"example": "Amplifier.balance", "compared": ["number", "position", "kind", "min", "max", "default", "attached"]})
-    res.sample({"example": "MetaModule.user_defined_controllers", "compared": ["byte", "bit", "size", "number", "min", "max", "inverted", "exclusive_of", "default"]})
     if spec_["tier"] == "thorough":
         regen_diff(res)
 
